@@ -101,7 +101,7 @@ class Poly:
         if not s.t: return z3.RealVal(0)
         terms = []
         for m, c in s.t.items():
-            f = [z3.RealVal(str(c.numerator)) / z3.RealVal(str(c.denominator)) if c.denominator != 1 else z3.RealVal(str(c.numerator))] if c != 1 or not m else []
+            f = [z3.RealVal(f'{c.numerator}/{c.denominator}' if c.denominator != 1 else str(c.numerator))] if c != 1 or not m else []
             for n, e in m: f += [s.R.vars[n]] * e
             terms.append(f[0] if len(f) == 1 else z3.Product(f))
         return terms[0] if len(terms) == 1 else z3.Sum(terms)
